@@ -290,6 +290,9 @@ func init() {
 		}
 		return "A:" + hist[0] + "#B:" + hist[1] + "#ids:" + joinOr(out, ",")
 	}
+	// evmsession <cap> <tg> <msgId> <props> : the session ids under which the EVM executor signs the batches of a delivery
+	// (same op as C14.exec; here it backs "signing session ids are identical on all relayers")
+	ops["C19.evmsession"] = func(a []string) string { return ops["C14.exec"](a) }
 	gens["C19"] = genC19
 }
 
@@ -329,6 +332,22 @@ func genRel(g *G, kind string, k int64, head int64, base int64) string {
 }
 
 func genC19(g *G) {
+	// EVM executor session ids: several batches per delivery (gas roll-over), executed ones in between
+	for _, sp := range []string{"n:p;n:p;n:p", "n:p;n:p;n:p;n:p", "100:p;n:p", "n:e;n:p;41:p;n:p", "40:p;n:p;n:p;0:p;0:p"} {
+		g.Emit("evmsession", "100", "60", "1-2-100-104", sp)
+	}
+	for i := 0; i < g.Count(60, 1500); i++ {
+		n := 2 + g.Intn(5)
+		xs := []string{}
+		for j := 0; j < n; j++ {
+			st := "p"
+			if g.Intn(4) == 0 {
+				st = "e"
+			}
+			xs = append(xs, []string{"n", "0", "40", "41", "100"}[g.Intn(5)]+":"+st)
+		}
+		g.Emit("evmsession", "100", "60", []string{"1-2-100-104", "3-1-5-9", "retry-7"}[g.Intn(3)], joinOr(xs, ";"))
+	}
 	// BTC credit: small exhaustive scope over which resources a transaction pays and whether the fee suffices
 	orders := []string{"01:0:100000000;02:1:100000000", "02:1:100000000;01:0:100000000", "01:0:100000000;02:1:200000000",
 		"03:2:100000000;01:0:200000000;02:1:100000000", "02:0:100000000;01:0:100000000", "01:0:100000000"}
